@@ -1159,6 +1159,8 @@ class Interp:
         dropped = []  # states of elements filtered out by an `if` (their effects on the state still happened)
         for g in e.generators:
             nxt = []
+            if not hasattr(g, "lineno"):
+                g.lineno = getattr(g.iter, "lineno", getattr(e, "lineno", 0))  # domains key loop facts by line
             for s in cur:
                 oks, ex = self.ev(g.iter, s, ctx)
                 excs += ex
